@@ -3,7 +3,7 @@ import Capella.Model.XmlParse
 Specification-level definitions for the round-trip theorems of C01/C02:
 
 * `wfDoc` — the decidable predicate "Capella-shaped": what lxml can hold *and* Capella writes
-  (no mixed content, no tails, non-blank text only, one prefix per namespace, nothing redeclared).
+  (no mixed content, no tails, no empty-string text, one prefix per namespace, nothing redeclared).
   Its complement is the boundary of the theorems; `Props/C01.lean` has a witness for each clause.
 * `canonDoc` — the order the file imposes: `xmi:version, xmi:type, xmi:id, xsi:type` first, namespace
   declarations sorted by `_ns_sortkey`.  Capella's own files are canonical (`canonDoc d = d`).
@@ -64,7 +64,7 @@ def nsdeclsOk (pns nsd : List (Str × Str)) : Bool :=
 def textOk (text : Option Str) (noKids : Bool) : Bool :=
   match text with
   | none => true
-  | some t => noKids && pyNonBlank text && t.all xmlChar
+  | some t => noKids && t != [] && t.all xmlChar
 
 mutual
 /-- well-formed below a parent whose `nsmap` is `pns` -/
@@ -154,7 +154,7 @@ def toksE (pns : List (Str × Str)) (isRoot : Bool) (indent : Nat) : Elem → Li
     if text.isNone && kids.isEmpty && !alwaysExpanded tag then [.stag name as true]
     else
       .stag name as false ::
-        ((match text with | some t => if pyNonBlank text then [Tok.text t] else [] | none => [])
+        ((match text with | some t => if textWritten text kids.isEmpty then [Tok.text t] else [] | none => [])
           ++ toksK nsmap (indent + 1) kids
           ++ (if kids.isEmpty then [] else [.text ('\n' :: ind indent)])
           ++ [.etag name])
